@@ -63,19 +63,26 @@
               finite and within +-2^18 of the slider head
               ([C01_parsed_control_points_bounded], an invariant of the
               parser state over all line sequences, kept by the finishing
-              conversion), so every list of lines -- and every byte
-              stream / reader state delivering them -- in which each
-              slider has at most 16 control points, or n control points
-              inside +-2^E of its head with n * 2^E <= 2^22, decodes to a
-              VALUE with the pinned fuels, given an atan2 with values in
-              [-PI, PI]: never OutOfFuel, never Panic, never Err
-              ([C01_decode_terminates_bounded], [.._graded], [.._bounded_lines]
-              with a decidable condition on the input lines,
+              conversion), and the curve hands the Bezier routine one
+              segment (typed point to next typed point) at a time
+              ([C01_T01g_curve_bounded_segments]); so every list of lines
+              -- and every byte stream / reader state delivering them --
+              in which each SEGMENT of each slider has at most 16 control
+              points, or n control points with the slider inside +-2^E of
+              its head and n * 2^E <= 2^22, decodes to a VALUE with the
+              pinned fuels, given an atan2 with values in [-PI, PI]:
+              never OutOfFuel, never Panic, never Err
+              ([C01_decode_terminates_segments], [.._segments_graded];
+              whole-slider forms [C01_decode_terminates_bounded],
+              [.._graded]; as decidable conditions on the input lines
+              [C01_decode_terminates_segments_lines], [.._bounded_lines];
+              bytes: [C01_decode_bytes_terminates_segments[_lines]],
               [C01_decode_bytes_terminates_bounded]; with the encoder:
+              [C01_decode_encode_terminates_segments[_lines]],
               [C01_decode_encode_terminates_bounded]).  OPEN: the same for
-              the remaining sliders a file can contain: more than 16
-              control points with some of them farther than 2^22 / n from
-              the head (T01g, partial by design; proved for reals and
+              the remaining sliders a file can contain: a segment of more
+              than 16 control points with some of them farther than 2^22 / n
+              from the head (T01g, partial by design; proved for reals and
               for the flat classes; REFUTED for unbounded coordinates,
               finding D25 -- public API only));
      LAYER 4  (re-encoding: see the section "LAYER 4" at the end of this file.
@@ -694,15 +701,16 @@ Proof. exact (conj BezierIEEEFinite.seg_fin_dump BezierIEEEFinite.seg_fin_finite
    LIFTED TO WHOLE FILES (section "LAYERS (1+)2+3, hang, for whole files"
    below): the premise "coordinates finite, |x| <= 2^18" of the full statement
    IS proved of everything the parser stores
-   ([C01_parsed_control_points_bounded]); hence decoding any file whose sliders
-   have <= 16 control points each (or fit n * 2^E <= 2^22 with their own E)
-   returns a value ([C01_decode_terminates_bounded], [.._graded],
-   [.._bounded_lines], [C01_decode_bytes_terminates_bounded]).
-   REMAINS OPEN: segments with n * 2^E > 2^22 inside the parser's range (more
-   than 16 control points, some of them far from the slider head; the count in
-   the decode-level theorems is per slider, the curve hands the Bezier routine
-   one segment at a time, so the count could be taken per segment -- not
-   mechanised).
+   ([C01_parsed_control_points_bounded]); the curve calls the Bezier routine
+   on one segment at a time ([C01_T01g_curve_bounded_segments]); hence decoding
+   any file whose sliders have <= 16 control points per SEGMENT (or fit
+   max_seg_len * 2^E <= 2^22 with their own E) returns a value
+   ([C01_decode_terminates_segments], [.._segments_graded], [.._segments_lines],
+   [C01_decode_bytes_terminates_segments]; whole-slider forms
+   [C01_decode_terminates_bounded], [.._graded], [.._bounded_lines]).
+   REMAINS OPEN: segments with n * 2^E > 2^22 inside the parser's range (a
+   single segment of more than 16 control points, some of them far from the
+   slider head).
    The worst-case bound n u is linear
    in n and exceeds the tolerance there; the true growth is logarithmic in n
    (the 4u increments have alternating signs that the next averaging step
@@ -1079,6 +1087,190 @@ Example C01_decode_terminates_example_graded :
 Proof.
   destruct DecodeTerminatesExamples.ex24_parsed as (_ & _ & P3 & P4 & _ & P6 & _).
   repeat (split; [assumption|]). exact DecodeTerminatesExamples.ex24_decodes.
+Qed.
+
+(* PER SEGMENT.  calculate_path hands the Bezier routine one segment at a
+   time: the control points from one typed point to the next, both included
+   ([untyped_between]: no typed point strictly between the two indices is the
+   loop invariant).  So the count may be taken per segment, each with an E of
+   its own: *)
+From RM Require Model.HitObjectSpec Proofs.DecodeTerminatesSegLoop Proofs.DecodeTerminatesSegments
+     Proofs.DecodeTerminatesSegLines.
+
+Theorem C01_T01g_curve_bounded_segments :
+  forall lm mode pts e,
+  ThetaLoop.atan2_in_range lm ->
+  (forall start i, (start <= i < length pts)%nat ->
+     DecodeTerminatesSegLoop.untyped_between pts start i ->
+     exists E, 0 <= E /\
+       Forall (BezierIEEE.point_ok E) (firstn (S i - start) (skipn start (map Curve.pc_pos pts))) /\
+       Z.of_nat (length (firstn (S i - start) (skipn start (map Curve.pc_pos pts)))) * 2 ^ E <= 2 ^ 22) ->
+  exists c, Curve.curve_L1 lm Curve.bezier_fuel mode pts e = Done c.
+Proof. exact DecodeTerminatesSegLoop.curve_L1_bounded_seg. Qed.
+Print Assumptions C01_T01g_curve_bounded_segments.
+
+(* [max_seg_len cps]: the longest run of untyped control points strictly inside
+   the list plus its two end points, never more than the whole list -- a bound
+   on every slice the curve can take *)
+Example C01_max_seg_len_means :
+  (forall cps, DecodeTerminatesSegments.max_seg_len cps
+     = Nat.min (length cps) (DecodeTerminatesSegments.max_untyped_run (removelast cps) + 2)) /\
+  (forall l a b, (a <= b <= length l)%nat ->
+     (forall j, (a <= j < b)%nat -> exists p, nth_error l j = Some p /\ cp_type p = None) ->
+     (b - a <= DecodeTerminatesSegments.max_untyped_run l)%nat) /\
+  (forall cps start i, (start <= i < length cps)%nat ->
+     DecodeTerminatesSegLoop.untyped_between (map conv_pcp cps) start i ->
+     (S i - start <= DecodeTerminatesSegments.max_seg_len cps)%nat) /\
+  (forall cps, (DecodeTerminatesSegments.max_seg_len cps <= length cps)%nat).
+Proof.
+  split; [reflexivity|]. split; [|split].
+  - intros l a b Hab Hb. exact (proj1 (DecodeTerminatesSegments.run_scan_block l 0 0 a b Hab Hb)).
+  - exact DecodeTerminatesSegments.seg_slice_length.
+  - exact DecodeTerminatesSegments.max_seg_len_le.
+Qed.
+
+Example C01_obj_seg_means :
+  (forall n h,
+     DecodeTerminatesSegments.obj_seg_le n h = true <->
+     match h_kind h with
+     | KSlider s => (DecodeTerminatesSegments.max_seg_len (sl_control_points s) <= n)%nat
+     | _ => True end) /\
+  (forall h,
+     DecodeTerminatesSegments.obj_seg_fits_some h = true <->
+     exists E,
+     match h_kind h with
+     | KSlider s =>
+         0 <= E <= 22 /\
+         Z.of_nat (DecodeTerminatesSegments.max_seg_len (sl_control_points s)) * 2 ^ E <= 2 ^ 22 /\
+         Forall (fun p => Z.abs (f32_as_i32 (px (cp_pos p))) <= 2 ^ E /\
+                          Z.abs (f32_as_i32 (py (cp_pos p))) <= 2 ^ E) (sl_control_points s)
+     | _ => True
+     end) /\
+  (* the whole-slider conditions are special cases *)
+  (forall h, DecodeTerminates.obj_fits_some h = true -> DecodeTerminatesSegments.obj_seg_fits_some h = true).
+Proof.
+  split; [exact DecodeTerminatesSegments.obj_seg_le_spec|]. split.
+  - intros h. rewrite DecodeTerminatesSegments.obj_seg_fits_some_spec.
+    split; intros (E & H); exists E; apply DecodeTerminatesSegments.obj_seg_fits_spec; exact H.
+  - exact DecodeTerminatesSegments.obj_fits_some_seg.
+Qed.
+
+(* DECODE TERMINATES, per segment: at most 16 control points in every segment
+   of every parsed slider (any number of segments, anywhere in the parser's
+   range); graded: max_seg_len * 2^E <= 2^22 with the slider inside +-2^E *)
+Theorem C01_decode_terminates_segments :
+  forall lm, ThetaLoop.atan2_in_range lm -> forall lines,
+  (Forall (fun h => DecodeTerminatesSegments.obj_seg_le 16 h = true) (DecodeTerminates.ho_parsed lines) ->
+   exists hv, decode_hit_objects (dist_of_curve lm) lines = Done hv) /\
+  (Forall (fun h => DecodeTerminatesSegments.obj_seg_le 16 h = true) (DecodeTerminates.bm_parsed lines) ->
+   exists bv, decode_beatmap (dist_of_curve lm) lines = Done bv).
+Proof. exact DecodeTerminatesSegments.decode_terminates_segments. Qed.
+Print Assumptions C01_decode_terminates_segments.
+
+Theorem C01_decode_terminates_segments_graded :
+  forall lm, ThetaLoop.atan2_in_range lm -> forall lines,
+  (Forall (fun h => DecodeTerminatesSegments.obj_seg_fits_some h = true) (DecodeTerminates.ho_parsed lines) ->
+   exists hv, decode_hit_objects (dist_of_curve lm) lines = Done hv) /\
+  (Forall (fun h => DecodeTerminatesSegments.obj_seg_fits_some h = true) (DecodeTerminates.bm_parsed lines) ->
+   exists bv, decode_beatmap (dist_of_curve lm) lines = Done bv).
+Proof. exact DecodeTerminatesSegments.decode_terminates_segments_graded. Qed.
+Print Assumptions C01_decode_terminates_segments_graded.
+
+Theorem C01_decode_bytes_terminates_segments :
+  forall lm, ThetaLoop.atan2_in_range lm -> forall b : bytes,
+  exists lines, read_all_lines (mk_reader b []) = IoDone lines /\
+  (Forall (fun h => DecodeTerminatesSegments.obj_seg_fits_some h = true) (DecodeTerminates.bm_parsed lines) ->
+   exists v, decode_bytes_beatmap (dist_of_curve lm) b = IoDone v) /\
+  (Forall (fun h => DecodeTerminatesSegments.obj_seg_fits_some h = true) (DecodeTerminates.ho_parsed lines) ->
+   exists v, decode_bytes_hit_objects (dist_of_curve lm) b = IoDone v).
+Proof. exact DecodeTerminatesSegments.decode_bytes_segments. Qed.
+Print Assumptions C01_decode_bytes_terminates_segments.
+
+(* ... and as a decidable condition on the input: in the path field
+   `B|p|p|..|L|q|..` a piece that starts with an ASCII letter opens a segment;
+   the longest run of untyped control points is at most the longest run of
+   pieces that do not start with a letter ([max_piece_run]), whatever the
+   points are.  [lines_seg_fit]: the path field of every line has at most 16
+   pieces, or all its runs of point pieces are at most 14 long. *)
+Example C01_lines_seg_fit_means :
+  (forall lines,
+     DecodeTerminatesSegLines.lines_seg_fit lines =
+     forallb (fun line =>
+       let field := odflt [] (nth_error (skipn 5 (split_on 44 (trim_comment line))) 0) in
+       Nat.leb (length (split_on 124 field)) 16 ||
+       Nat.leb (DecodeTerminatesSegLines.max_piece_run field) 14) lines) /\
+  (forall s,
+     DecodeTerminatesSegLines.max_piece_run s =
+     match split_on 124 s with [] => 0%nat | _ :: rest => DecodeTerminatesSegLines.piece_runs 0 rest end) /\
+  (forall cur, DecodeTerminatesSegLines.piece_runs cur [] = cur) /\
+  (forall cur c t r,
+     DecodeTerminatesSegLines.piece_runs cur ((c :: t) :: r) =
+     if is_ascii_alpha c then Nat.max cur (DecodeTerminatesSegLines.piece_runs 0 r)
+     else DecodeTerminatesSegLines.piece_runs (S cur) r) /\
+  (forall lines, DecodeTerminatesLines.lines_fit 16 lines = true ->
+     DecodeTerminatesSegLines.lines_seg_fit lines = true).
+Proof.
+  split; [reflexivity|]. split; [reflexivity|]. split; [reflexivity|]. split; [reflexivity|].
+  exact DecodeTerminatesSegLines.lines_fit_seg_fit.
+Qed.
+
+(* what the path string gives, for every string and slider head *)
+Theorem C01_path_string_runs :
+  forall s offset a b,
+  (a <= b <= length (fst (HitObjectSpec.path_spec s offset)))%nat ->
+  (forall j, (a <= j < b)%nat ->
+     exists p, nth_error (fst (HitObjectSpec.path_spec s offset)) j = Some p /\ cp_type p = None) ->
+  (b - a <= DecodeTerminatesSegLines.max_piece_run s)%nat.
+Proof. exact DecodeTerminatesSegLines.path_spec_runs. Qed.
+Print Assumptions C01_path_string_runs.
+
+Theorem C01_decode_terminates_segments_lines :
+  forall lm, ThetaLoop.atan2_in_range lm -> forall lines,
+  DecodeTerminatesSegLines.lines_seg_fit lines = true ->
+  (exists hv, decode_hit_objects (dist_of_curve lm) lines = Done hv) /\
+  (exists bv, decode_beatmap (dist_of_curve lm) lines = Done bv).
+Proof. exact DecodeTerminatesSegLines.decode_terminates_seg_lines. Qed.
+Print Assumptions C01_decode_terminates_segments_lines.
+
+Theorem C01_decode_reader_terminates_segments_lines :
+  forall lm, ThetaLoop.atan2_in_range lm -> forall r lines,
+  read_all_lines r = IoDone lines -> DecodeTerminatesSegLines.lines_seg_fit lines = true ->
+  (exists v, io_bind (read_all_lines r)
+               (fun ls => io_of_outcome (decode_hit_objects (dist_of_curve lm) ls)) = IoDone v) /\
+  (exists v, io_bind (read_all_lines r)
+               (fun ls => io_of_outcome (decode_beatmap (dist_of_curve lm) ls)) = IoDone v).
+Proof. exact DecodeTerminatesSegLines.decode_reader_terminates_seg_lines. Qed.
+Print Assumptions C01_decode_reader_terminates_segments_lines.
+
+Theorem C01_decode_bytes_terminates_segments_lines :
+  forall lm, ThetaLoop.atan2_in_range lm -> forall b : bytes,
+  exists lines, read_all_lines (mk_reader b []) = IoDone lines /\
+  (DecodeTerminatesSegLines.lines_seg_fit lines = true ->
+   (exists v, decode_bytes_hit_objects (dist_of_curve lm) b = IoDone v) /\
+   (exists v, decode_bytes_beatmap (dist_of_curve lm) b = IoDone v)).
+Proof. exact DecodeTerminatesSegLines.decode_bytes_terminates_seg_lines. Qed.
+Print Assumptions C01_decode_bytes_terminates_segments_lines.
+
+(* not vacuous: a slider of three Bezier segments of 14 point pieces each, all
+   at the coordinate limits -- 43 control points, 16 in the longest segment:
+   outside every whole-slider rule (43 * 2^18 > 2^22), inside the per-segment
+   one, on the input and on the state *)
+Example C01_decode_terminates_example_segments :
+  DecodeTerminatesSegLines.lines_seg_fit DecodeTerminatesExamples.ex43_lines = true /\
+  DecodeTerminatesLines.lines_fit 16 DecodeTerminatesExamples.ex43_lines = false /\
+  map (fun x => (fst (fst x), snd (fst x)))
+      (DecodeTerminatesExamples.parsed_shape (DecodeTerminates.bm_parsed DecodeTerminatesExamples.ex43_lines))
+    = [(43%nat, 16%nat)] /\
+  map (DecodeTerminatesSegments.obj_seg_le 16) (DecodeTerminates.bm_parsed DecodeTerminatesExamples.ex43_lines) = [true] /\
+  map (DecodeTerminatesSegments.obj_seg_le 15) (DecodeTerminates.bm_parsed DecodeTerminatesExamples.ex43_lines) = [false] /\
+  map DecodeTerminates.obj_fits_some (DecodeTerminates.bm_parsed DecodeTerminatesExamples.ex43_lines) = [false] /\
+  (forall lm, ThetaLoop.atan2_in_range lm ->
+     (exists hv, decode_hit_objects (dist_of_curve lm) DecodeTerminatesExamples.ex43_lines = Done hv) /\
+     (exists bv, decode_beatmap (dist_of_curve lm) DecodeTerminatesExamples.ex43_lines = Done bv)).
+Proof.
+  destruct DecodeTerminatesExamples.ex43_lines_fit as [L1 L2].
+  destruct DecodeTerminatesExamples.ex43_parsed as (P1 & _ & P3 & P4 & _ & _ & P7 & _).
+  repeat (split; [assumption|]). exact DecodeTerminatesExamples.ex43_decodes.
 Qed.
 
 (* the hypothesis on atan2 is satisfiable (and needed: [C01_theta_loop_hostile_atan2]) *)
@@ -1516,6 +1708,32 @@ Theorem C01_decode_encode_terminates_bounded :
       exists w, encode_tokens (DrvEnc.dist_real lm) (events_with chk fuel tf) bv = Panic w)).
 Proof. exact DecodeTerminatesEncode.decode_encode_16. Qed.
 Print Assumptions C01_decode_encode_terminates_bounded.
+
+Theorem C01_decode_encode_terminates_segments :
+  forall lm, ThetaLoop.atan2_in_range lm ->
+  forall chk fuel tf lines,
+  Forall (fun h => DecodeTerminatesSegments.obj_seg_fits_some h = true) (DecodeTerminates.bm_parsed lines) ->
+  100000 * 2 ^ 25 + 1 < Z.of_nat tf -> 3 + 9000 * (100000 * 2 ^ 25 + 1) < Z.of_nat fuel ->
+  exists bv, decode_beatmap (dist_of_curve lm) lines = Done bv /\
+    encode_tokens (DrvEnc.dist_real lm) (events_with chk fuel tf) bv <> OutOfFuel /\
+    ((exists toks, encode_tokens (DrvEnc.dist_real lm) (events_with chk fuel tf) bv = Done toks) \/
+     (neg_dist_class lm bv = true /\
+      exists w, encode_tokens (DrvEnc.dist_real lm) (events_with chk fuel tf) bv = Panic w)).
+Proof. exact DecodeTerminatesEncode.decode_encode_seg_fits. Qed.
+Print Assumptions C01_decode_encode_terminates_segments.
+
+Theorem C01_decode_encode_terminates_segments_lines :
+  forall lm, ThetaLoop.atan2_in_range lm ->
+  forall chk fuel tf lines,
+  DecodeTerminatesSegLines.lines_seg_fit lines = true ->
+  100000 * 2 ^ 25 + 1 < Z.of_nat tf -> 3 + 9000 * (100000 * 2 ^ 25 + 1) < Z.of_nat fuel ->
+  exists bv, decode_beatmap (dist_of_curve lm) lines = Done bv /\
+    encode_tokens (DrvEnc.dist_real lm) (events_with chk fuel tf) bv <> OutOfFuel /\
+    ((exists toks, encode_tokens (DrvEnc.dist_real lm) (events_with chk fuel tf) bv = Done toks) \/
+     (neg_dist_class lm bv = true /\
+      exists w, encode_tokens (DrvEnc.dist_real lm) (events_with chk fuel tf) bv = Panic w)).
+Proof. exact DecodeTerminatesEncode.decode_encode_seg_lines. Qed.
+Print Assumptions C01_decode_encode_terminates_segments_lines.
 
 Theorem C01_decode_encode_terminates_graded :
   forall lm, ThetaLoop.atan2_in_range lm ->
